@@ -16,7 +16,7 @@ package service
 //@ property C09 roots (*service).processIncoming, (*service).peekMessageSize, (*service).stop, (*github.com/mdzio/go-mqtt/sessions.Session).Init, (*github.com/mdzio/go-mqtt/sessions.Session).Update
 //@ property C10 roots (*Server).getSession, (*service).stop, (*github.com/mdzio/go-mqtt/sessions.Manager).Get, (*github.com/mdzio/go-mqtt/sessions.Manager).Del, (*github.com/mdzio/go-mqtt/sessions.Session).AddTopic, (*github.com/mdzio/go-mqtt/sessions.Session).RemoveTopic
 //@ property C06 roots github.com/mdzio/go-mqtt/topics.nextTopicLevel, (*github.com/mdzio/go-mqtt/topics.Manager).Subscribe, (*github.com/mdzio/go-mqtt/topics.Manager).Unsubscribe, (*github.com/mdzio/go-mqtt/topics.Manager).Subscribers
-//@ property C07 roots (*service).processUnsubscribe, (*github.com/mdzio/go-mqtt/message.SubackMessage).AddReturnCodes, (*github.com/mdzio/go-mqtt/message.SubackMessage).AddReturnCode, (*github.com/mdzio/go-mqtt/message.SubscribeMessage).Decode, (*github.com/mdzio/go-mqtt/message.UnsubscribeMessage).Decode, (*github.com/mdzio/go-mqtt/message.SubackMessage).Encode, (*github.com/mdzio/go-mqtt/topics.Manager).Subscribe, (*github.com/mdzio/go-mqtt/topics.Manager).Unsubscribe
+//@ property C07 roots (*service).processUnsubscribe, (*service).processSubscribe, (*github.com/mdzio/go-mqtt/message.SubackMessage).AddReturnCodes, (*github.com/mdzio/go-mqtt/message.SubackMessage).AddReturnCode, (*github.com/mdzio/go-mqtt/message.SubscribeMessage).Decode, (*github.com/mdzio/go-mqtt/message.UnsubscribeMessage).Decode, (*github.com/mdzio/go-mqtt/message.SubackMessage).Encode, (*github.com/mdzio/go-mqtt/topics.Manager).Subscribe, (*github.com/mdzio/go-mqtt/topics.Manager).Unsubscribe
 //@ property C11 roots (*Server).handleConnection, (*Server).getSession, (*github.com/mdzio/go-mqtt/message.ConnectMessage).Decode, (*github.com/mdzio/go-mqtt/message.ConnectMessage).decodeMessage, (*github.com/mdzio/go-mqtt/message.ConnectMessage).validClientID, (*github.com/mdzio/go-mqtt/message.ConnackMessage).Encode
 //@ property C05 roots getMessageBuffer, getConnectMessage, (*service).peekMessageSize, (*service).peekMessage, (*github.com/mdzio/go-mqtt/message.ConnectMessage).Decode
 //@ property C19 roots (*service).processIncoming, (*service).receiver, (timeoutReader).Read
